@@ -17,7 +17,7 @@ type rawOp struct {
 type hooks struct {
 	writes   [][]rawOp // physical writes in order
 	record   bool
-	calls    int         // number of storage calls seen (Get, Has, iterator create/step, batch Set/Delete/Write, direct Set/Delete)
+	calls    int          // number of storage calls seen (Get, Has, iterator create/step, batch Set/Delete/Write, direct Set/Delete)
 	failAt   map[int]bool // calls (1-based) that fail
 	failed   int          // how many faults were actually injected
 	gets     int          // point reads (Get/Has) — the C11 node read counter
@@ -206,5 +206,5 @@ func (b *wrapBatch) WriteSync() error {
 	return nil
 }
 
-func (b *wrapBatch) Close() error               { return b.inner.Close() }
+func (b *wrapBatch) Close() error              { return b.inner.Close() }
 func (b *wrapBatch) GetByteSize() (int, error) { return b.inner.GetByteSize() }
